@@ -42,33 +42,36 @@ Definition C17_full_statement (fx : bool) : Prop := forall C pmap vals permute d
   linearize (Q2Qc 0) vals permute = Some rows /\
   forall r j, r < length rows -> nth r (nth j tr []) [] = nth j (nth r (grid_spec C pmap rows dt n) []) [].
 
-(* It is false of the code as it is: adapt_circuit looks an edge target (source, target, idx) up with idx but hands only
-   (source, target, values) to update_var, which writes parallel edge 0 — sweeping the second of two parallel edges
-   sweeps the first (witness replayed on the real code: corpus/C17/C17-edge-idx-ignored.json) *)
-Theorem C17_idx_ignored_refuted :
+(* It holds of the code as it is (repair D155 landed: adapt_circuit passes the index of a parallel edge through update_var):
+   no guard, every circuit, map, grid, step size, number of steps *)
+Theorem C17_full : C17_full_statement fix_idx.
+Proof. exact grid_impl_spec_repaired. Qed.
+Print Assumptions C17_full.
+Theorem C17_full_after_repair : C17_full_statement true.
+Proof. exact grid_impl_spec_repaired. Qed.
+Print Assumptions C17_full_after_repair.
+
+(* Before repair D155 (kept for the revert test): adapt_circuit looked an edge target (source, target, idx) up with idx but
+   handed only (source, target, values) to update_var, which wrote parallel edge 0 — sweeping the second of two parallel
+   edges swept the first (regression case corpus/C17/C17-edge-idx-ignored.json) *)
+Theorem C17_idx_ignored_before_fix :
   idx_guard par_circ [[TW 1]] = false /\
   edges (adapt_gen false par_circ [[TW 1]] [qz 5]) = [(0, 1, qz 5); (0, 1, qz 2)] /\
   edges (adapt par_circ [[TW 1]] [qz 5]) = [(0, 1, qz 1); (0, 1, qz 5)] /\
   (match grid_impl_gen false par_circ [[TW 1]] [[qz 5]] false (qz 1) 2 with Some (_, tr) => nth 1 (nth 0 (nth 1 tr []) []) (qz 0) | None => qz 0 end) = qz 7 /\
   nth 1 (nth 1 (nth 0 (grid_spec par_circ [[TW 1]] [[qz 5]] (qz 1) 2) []) []) (qz 0) = qz 6.
 Proof. exact idx_ignored_refuted. Qed.
-Print Assumptions C17_idx_ignored_refuted.
-
-(* ... true under the decidable guard "every swept edge is parallel edge 0 of its (source, target) pair" ... *)
-Theorem C17_partial : forall C pmap vals permute dt n rows tr, idx_guard C pmap = true ->
+Print Assumptions C17_idx_ignored_before_fix.
+(* ... and was right only under the guard "every swept edge is parallel edge 0 of its (source, target) pair" *)
+Theorem C17_partial_before_fix : forall C pmap vals permute dt n rows tr, idx_guard C pmap = true ->
   grid_impl_gen false C pmap vals permute dt n = Some (rows, tr) ->
   linearize (Q2Qc 0) vals permute = Some rows /\
   forall r j, r < length rows -> nth r (nth j tr []) [] = nth j (nth r (grid_spec C pmap rows dt n) []) [].
 Proof. exact grid_impl_spec_partial. Qed.
-Print Assumptions C17_partial.
+Print Assumptions C17_partial_before_fix.
 Theorem C17_adapt_under_guard : forall C pmap row, idx_guard C pmap = true -> adapt_gen false C pmap row = adapt C pmap row.
 Proof. exact adapt_under_guard. Qed.
 Print Assumptions C17_adapt_under_guard.
-
-(* ... and without any guard once idx is passed through (proposed repair, /verif/fixes) *)
-Theorem C17_full_after_repair : C17_full_statement true.
-Proof. exact grid_impl_spec_repaired. Qed.
-Print Assumptions C17_full_after_repair.
 
 (* adapt_circuit: a written value reaches its target and leaves the other entries alone *)
 Theorem C17_write_hits : forall C i v, i < length (ks C) -> nth i (ks (write C (TK i, v))) (Q2Qc 0) = v.
